@@ -44,7 +44,60 @@ let hex_of_bytes l = if l = [] then "-" else
 let nat_of_int i = let rec go i acc = if i = 0 then acc else go (i-1) (S acc) in go i O
 let rec int_of_nat = function O -> 0 | S n -> 1 + int_of_nat n
 
+let split_ops s = List.filter (fun o -> o <> "") (String.split_on_char ';' s)
+let b01 b = if b then "1" else "0"
+
+let hist_cmd t0 ops =
+  let h = ref (hist_new (n_of_hex t0)) in
+  let out = ref [] in
+  (try List.iter (fun op ->
+    match String.split_on_char ':' op with
+    | ["c"; t] -> (match hist_confirm !h (n_of_hex t) with
+        | Ok h' -> h := h' | _ -> out := "P" :: !out; raise Exit)
+    | ["q"; t] -> out := b01 (hist_contains !h (n_of_hex t)) :: !out
+    | ["r"; a; b] -> out := (match hist_contains_any !h (n_of_hex a) (n_of_hex b) with
+        | Ok r -> b01 r | _ -> "P") :: !out
+    | _ -> out := "?" :: !out) (split_ops ops) with Exit -> ());
+  Printf.sprintf "%s | %s %s" (String.concat "," (List.rev !out)) (hex_of_n !h.h_mask) (hex_of_n !h.h_last)
+
+let mt_cmd ops =
+  let m = ref mt_default in
+  let out = ref [] in
+  let mask_s m = match mt_mask m with Ok x -> hex_of_n x | _ -> "P" in
+  try
+    List.iter (fun op ->
+      match String.split_on_char ':' op with
+      | ["c"; t; c] -> (match mt_confirm !m (n_of_hex t) (n_of_hex c) with
+          | Ok (m', b) -> m := m'; out := b01 b :: !out
+          | _ -> out := "P" :: !out; raise Exit)
+      | ["q"; t] -> out := b01 (mt_contains !m (n_of_hex t)) :: !out
+      | ["r"; a; b] -> out := (match mt_contains_any !m (n_of_hex a) (n_of_hex b) with
+          | Ok r -> b01 r | _ -> "P") :: !out
+      | ["m"] -> out := mask_s !m :: !out
+      | _ -> out := "?" :: !out) (split_ops ops);
+    Printf.sprintf "%s | %s %s" (String.concat "," (List.rev !out)) (mask_s !m) (hex_of_n !m.mt_last)
+  with Exit -> String.concat "," (List.rev !out)
+
+(* "eb:cb,eb:cb" -> list of pairs; "_" -> [] *)
+let parse_ents s = if s = "_" || s = "-" then [] else
+  List.map (fun e -> match String.split_on_char ':' e with
+    | [a; b] -> (n_of_hex a, n_of_hex b) | _ -> failwith "ent") (String.split_on_char ',' s)
+let parse_groups s = if s = "_" then [] else List.map parse_ents (String.split_on_char '|' s)
+
+let split_cmd track max related standalone =
+  match mutations_split (n_of_hex "1") N0 (parse_groups related) (parse_ents standalone) (track = "1") (n_of_hex max) with
+  | Ok ms -> if ms = [] then "NONE" else String.concat ";" (List.map (fun (len, ids) ->
+      Printf.sprintf "%s:%s" (hex_of_n len) (String.concat "," (List.map hex_of_n ids))) ms)
+  | Err -> "ERR" | Panic -> "PANIC"
+
 let handle cmd args = match cmd, args with
+  | "can_pack", [a; b; c] -> (match can_pack (n_of_hex a) (n_of_hex b) (n_of_hex c) with Ok b -> b01 b | _ -> "PANIC")
+  | "split", [track; max; related; standalone] -> split_cmd track max related standalone
+  | "tcmp", [a; b] -> (match tick_cmp (n_of_hex a) (n_of_hex b) with Lt -> "L" | Eq -> "E" | Gt -> "G")
+  | "hist", [t0] -> hist_cmd t0 ""
+  | "hist", [t0; ops] -> hist_cmd t0 ops
+  | "mt", [] -> mt_cmd ""
+  | "mt", [ops] -> mt_cmd ops
   | "ent_dec", [h] -> (match deserialize_entity (bytes_of_hex h) with
       | Ok (e, r) -> Printf.sprintf "OK %s %s %s" (hex_of_n e.e_index) (hex_of_n e.e_gen) (hex_of_bytes r)
       | Err -> "ERR" | Panic -> "PANIC")
